@@ -35,15 +35,18 @@ type Case struct {
 	// whole-system half, system "failing-write": the n-th object write of the first request fails once after consuming its
 	// body (an index file written empty by a bad retry is a valid index that matches nothing); the same request is then
 	// served again on the cache the first one left
-	FailWrite int      `json:"fail_write,omitempty"`
-	System    string   `json:"system,omitempty"` // whole-system half: which cache files of a previous run are kept (none | index | all | all-but-index)
-	Seg       uint64   `json:"seg,omitempty"`
-	Start     uint64   `json:"start,omitempty"`
-	Stop      uint64   `json:"stop,omitempty"`
-	Expr      string   `json:"expr"`
-	Assign    []int    `json:"assign"` // per block (100,101,102): bitmask over keys
-	Keys      []string `json:"keys"`
-	File      bool     `json:"file,omitempty"` // also through index.File save+load
+	FailWrite int `json:"fail_write,omitempty"`
+	// whole-system half: the final block lies inside the range, so that a linear part follows the back-filled one and
+	// reads the stores the segment jobs built
+	FinalInside bool     `json:"final_inside,omitempty"`
+	System      string   `json:"system,omitempty"` // whole-system half: which cache files of a previous run are kept (none | index | all | all-but-index)
+	Seg         uint64   `json:"seg,omitempty"`
+	Start       uint64   `json:"start,omitempty"`
+	Stop        uint64   `json:"stop,omitempty"`
+	Expr        string   `json:"expr"`
+	Assign      []int    `json:"assign"` // per block (100,101,102): bitmask over keys
+	Keys        []string `json:"keys"`
+	File        bool     `json:"file,omitempty"` // also through index.File save+load
 }
 
 var blocks = []uint64{100, 101, 102}
@@ -61,12 +64,16 @@ func evalSystem(cs Case) (*core.Fail, bool) {
 	base := sysrun.Scratch("c15base")
 	defer os.RemoveAll(base)
 	mk := func(dir string) sysrun.Config {
-		return sysrun.Config{Modules: p.Modules, Output: p.Output, Prod: true, Seg: cs.Seg, Start: int64(cs.Start), Stop: cs.Stop, Final: cs.Stop + 2, Dir: dir, Source: sysrun.LinearChain{Head: cs.Stop + 3, Final: cs.Stop + 3}, Timeout: 15 * time.Second}
+		final := cs.Stop + 2
+		if cs.FinalInside {
+			final = (cs.Start + cs.Stop) / 2
+		}
+		return sysrun.Config{Modules: p.Modules, Output: p.Output, Prod: true, Seg: cs.Seg, Start: int64(cs.Start), Stop: cs.Stop, Final: final, Dir: dir, Source: sysrun.LinearChain{Head: cs.Stop + 3, Final: final}, Timeout: 15 * time.Second}
 	}
 	cfg0 := mk(base)
 	cfg0.FailWrite = cs.FailWrite
 	r0 := sysrun.Run(cfg0)
-	desc := fmt.Sprintf("%s program prod [%d,%d) seg=%d keep=%s", p.Name, cs.Start, cs.Stop, cs.Seg, cs.System)
+	desc := fmt.Sprintf("%s program prod [%d,%d) seg=%d keep=%s final-inside=%v", p.Name, cs.Start, cs.Stop, cs.Seg, cs.System, cs.FinalInside)
 	if cs.FailWrite > 0 {
 		desc += fmt.Sprintf(" (object write #%d of the first request fails once after its body was consumed)", cs.FailWrite)
 	}
@@ -112,10 +119,15 @@ func evalSystem(cs Case) (*core.Fail, bool) {
 			keep[f] = true
 		case "all-but-index":
 			keep[f] = !isIdx
+		case "all-but-states": // index and cached outputs present, every snapshot and partial gone
+			keep[f] = !strings.Contains(f, "/states/")
 		}
 	}
 	if cs.FailWrite > 0 && !r0.WriteFaultHit {
 		return nil, false // the request does not write that many objects
+	}
+	if nIndex == 0 && cs.FinalInside {
+		return nil, false // the final block lies below the first segment boundary: nothing is back-filled, no index file
 	}
 	if nIndex == 0 {
 		return core.Failf("system:no-index-file-written", "%s: the clean run left no index file", desc), false
@@ -343,9 +355,14 @@ func Run(ctx *core.Ctx) int {
 							return
 						}
 					}
-					modes := []string{"none", "index", "all", "all-but-index"}
+					modes := []string{"none", "index", "all", "all-but-index", "all-but-states"}
 					if prog == "index2" {
 						modes = append(modes, "index-first", "index-second")
+					}
+					for _, keepMode := range []string{"all-but-states", "index", "none"} {
+						if !emit(Case{Prog: prog, System: keepMode, Seg: seg, Start: se[0], Stop: se[1], FinalInside: true}) {
+							return
+						}
 					}
 					for _, keepMode := range modes {
 						if !emit(Case{Prog: prog, System: keepMode, Seg: seg, Start: se[0], Stop: se[1]}) {
